@@ -188,6 +188,10 @@ class Body:
         for pr in p["p"]:
             if pr == "*":
                 e = e[1] if e[0] == "ref" else ("deref", e)
+            elif isinstance(pr, dict) and "i" in pr and "closure" in pr and e[0] == "agg" and isinstance(e[1], str) and \
+                    "{closure" in e[1] and pr["i"] < len(e[3]):
+                # the closure value was built in this very body (a desugared / inlined closure): the captured operand
+                e = e[3][pr["i"]]
             elif isinstance(pr, dict) and "i" in pr and "closure" in pr:
                 ups = self.fn.j.get("upvars") or []
                 nm = ups[pr["i"]] if pr["i"] < len(ups) else "upvar%d" % pr["i"]
@@ -1065,6 +1069,7 @@ class PEval:
         self.unwind = unwind
         self.bindings = bindings or {}    # local -> ('int', n) | ('variant', adt, name)
         self._tracked = self._tracked_locals()
+        self._flow = self._flow_locals()
 
     def _tracked_locals(self):
         tr = set()
@@ -1088,6 +1093,52 @@ class PEval:
             if ok:
                 tr.add(l)
         return tr
+
+    def _flow_locals(self):
+        """bool locals that take part in a multi-definition flow (a join of constants, copies, calls, comparisons) - directly or
+        as the source copied into such a join.  Only used with an assumption (otherwise nothing could be known about them)."""
+        if self.assume is None:
+            return set()
+        body = self.body
+        out = set()
+        defs = body.defs()
+        for l, ds in defs.items():
+            if l < len(body.locals) and body.locals[l]["ty"] == "bool" and len(ds) > 1 and l not in self._tracked:
+                out.add(l)
+        changed = True
+        while changed:
+            changed = False
+            for l in list(out):
+                for d in defs.get(l, []):
+                    if d[0] == "stmt" and d[3]["k"] == "=" and d[3]["rv"]["k"] == "use":
+                        src = operand_local(d[3]["rv"]["op"])
+                        p = operand_place(d[3]["rv"]["op"])
+                        if src is not None and p is not None and not p["p"] and src not in out and src not in self._tracked and \
+                                src < len(body.locals) and body.locals[src]["ty"] == "bool" and src > body.arg_count:
+                            out.add(src)
+                            changed = True
+        return out
+
+    def _eval_rvalue(self, rv, env, b):
+        k = rv["k"]
+        if k == "use":
+            return self._eval_operand(rv["op"], env)
+        if k == "unop" and rv["op"] == "Not":
+            v = self._eval_operand(rv["a"], env)
+            return ("int", 0 if v[1] else 1) if v and v[0] == "int" else None
+        hook = getattr(self.assume, "value_of", None)
+        if hook is not None:
+            r = hook(self.body, b, self.body.expr_of_rvalue(rv))
+            if r is not None:
+                return ("int", 1 if r else 0)
+        if k == "binop" and rv["op"] in ("Eq", "Ne", "Lt", "Le", "Gt", "Ge"):
+            a = self._eval_operand(rv["a"], env)
+            c = self._eval_operand(rv["b"], env)
+            if a and c and a[0] == "int" and c[0] == "int":
+                r = {"Eq": a[1] == c[1], "Ne": a[1] != c[1], "Lt": a[1] < c[1], "Le": a[1] <= c[1],
+                     "Gt": a[1] > c[1], "Ge": a[1] >= c[1]}[rv["op"]]
+                return ("int", 1 if r else 0)
+        return None
 
     def _eval_operand(self, o, env):
         if "k" in o:
@@ -1163,13 +1214,24 @@ class PEval:
             reached.add(b)
             env = dict(envt)
             for s in body.blocks[b]["stmts"]:
-                if s["k"] == "=" and not s["lhs"]["p"] and s["lhs"]["l"] in self._tracked:
-                    env[s["lhs"]["l"]] = ("int", s["rv"]["op"]["k"]["int"])
+                if s["k"] != "=" or s["lhs"]["p"]:
+                    continue
+                l = s["lhs"]["l"]
+                if l in self._tracked and s["rv"]["k"] == "use" and "k" in s["rv"]["op"] and "int" in s["rv"]["op"]["k"]:
+                    env[l] = ("int", s["rv"]["op"]["k"]["int"])
+                elif l in self._flow:
+                    # bool temporaries that are copied / negated / compared along the path (the shape desugared combinators and
+                    # inlined predicates leave behind): evaluate when the operands are known on this path
+                    v = self._eval_rvalue(s["rv"], env, b)
+                    if v is not None:
+                        env[l] = v
+                    else:
+                        env.pop(l, None)
             t = body.term(b)
             succs = body.succs(b, self.unwind)
             if b in stop_blocks and b != start:
                 continue
-            if t["k"] == "call" and not t["dest"]["p"] and t["dest"]["l"] in self._tracked:
+            if t["k"] == "call" and not t["dest"]["p"] and (t["dest"]["l"] in self._tracked or t["dest"]["l"] in self._flow):
                 probe = {"k": "switch", "targets": [[0, -1]], "otherwise": -2}
                 e = ("call", callee_path(t), [body.expr_of_operand(a) for a in t["args"]], b)
                 allowed = self.assume(body, b, probe, e) if self.assume else None
